@@ -34,8 +34,18 @@ theorem add_creates_no_entity (s : St) (wr : Nat) (trigs : List Trig) :
 /-- Adding an entity to an entity world reactor: only for an entity that exists when called; the local data is
     inserted (overwriting older data) and the reactor's trigger bundle for that entity is registered. -/
 theorem ewrAdd_alive (s : St) (wr e v : Nat) (h : s.alive e = true) :
-    enqueue s (.ewrAdd wr e v) = (s, [.ewrInsertLocal e wr v, .register (ewrBundle wr e) (s.ewrSys wr) .persistent]) := by
+    enqueue s (.ewrAdd wr e v) = (s, [.ewrAdd e wr v (s.ewrSys wr)]) := by
   simp [enqueue, h]
+
+/-- ... and when the queued call runs, the entity is looked up again: the local data is inserted and the bundle registered
+    only if it still exists; an entity despawned in between gets nothing (not even its removal type tracked). -/
+theorem ewrAdd_apply_alive (s : St) (wr e v sys : Nat) (h : s.alive e = true) :
+    applyCmd s (.ewrAdd e wr v sys) =
+      s.push [.flush, .batch [.ewrInsertLocal e wr v, .register (ewrBundle wr e) sys .persistent]] := by
+  simp [applyCmd, h]
+
+theorem ewrAdd_apply_dead (s : St) (wr e v sys : Nat) (h : s.alive e = false) : applyCmd s (.ewrAdd e wr v sys) = s := by
+  simp [applyCmd, h]
 
 theorem ewrAdd_dead (s : St) (wr e v : Nat) (h : s.alive e = false) : enqueue s (.ewrAdd wr e v) = (s, []) := by
   simp [enqueue, h]
